@@ -85,8 +85,6 @@ def decode(items):
             rex = b
             b = s.byte()
         W, Rr, X, B = (rex >> 3) & 1, (rex >> 2) & 1, (rex >> 1) & 1, rex & 1
-        if X:
-            raise Unsupported("REX.X without SIB")
         w = 64 if W else (16 if p66 else 32)
         ins = None
 
@@ -95,17 +93,28 @@ def decode(items):
             mod, reg, rm = m >> 6, ((m >> 3) & 7) | (Rr << 3), (m & 7) | (B << 3)
             if mod == 3:
                 return reg, ("reg", rm)
+            index, scale = None, 1
             if (m & 7) == 4:
-                raise Unsupported("ModRM rm=100 needs a SIB byte (base rsp/r12) which the JIT never emits")
+                # SIB byte: scale | index | base; index 100 without REX.X means "no index"
+                sib = s.byte()
+                scale = 1 << (sib >> 6)
+                index = ((sib >> 3) & 7) | (X << 3)
+                if index == 4:
+                    index = None
+                rm = (sib & 7) | (B << 3)
+                if (sib & 7) == 5 and mod == 0:
+                    raise Unsupported("SIB with no base register (disp32 only)")
+            elif X:
+                raise Unsupported("REX.X without SIB")
             if mod == 0:
                 if (m & 7) == 5:
                     raise Unsupported("mod=00 rm=101 is RIP-relative, not [rbp]/[r13]")
-                return reg, ("mem", rm, T.K(64, 0))
+                return reg, ("mem", rm, T.K(64, 0), index, scale)
             if mod == 1:
                 d, _ = s.field(8)
-                return reg, ("mem", rm, T.sext(64, d))
+                return reg, ("mem", rm, T.sext(64, d), index, scale)
             d, _ = s.field(32)
-            return reg, ("mem", rm, T.sext(64, d))
+            return reg, ("mem", rm, T.sext(64, d), index, scale)
 
         if b in ALU_MR:
             reg, rm = modrm()
@@ -279,8 +288,14 @@ class M:
 
 
 def _addr(m, ea):
-    _, base, disp = ea
-    return T.op("add", 64, m.regs[base], disp)
+    base, disp = ea[1], ea[2]
+    a = T.op("add", 64, m.regs[base], disp)
+    if len(ea) > 3 and ea[3] is not None:
+        idx = m.regs[ea[3]]
+        if ea[4] != 1:
+            idx = T.shift("shl", 64, idx, T.K(64, ea[4].bit_length() - 1))
+        a = T.op("add", 64, a, idx)
+    return a
 
 
 def _read(m, opnd, w):
